@@ -239,6 +239,26 @@ def harness(cx, cfg):
                 m = loader.Loader(stubs={"esutil.stat._chist": cmodels.chist_module()}).get("esutil.stat.util")
             else:
                 m.have_chist = False
+        # data may hold NaN / infinities: what the code computes from them is not modelled (floats are reals),
+        # but whether it *writes* into its argument on that branch is: the finiteness tests answer arbitrarily
+        k_ = [0]
+
+        def _nondet(x_, out=None):
+            def cell(c):
+                k_[0] += 1
+                return cx.flag("finite%d" % k_[0]) if is_sym(c) else True
+            if isinstance(x_, symnp.SArr):
+                return symnp.SArr(symnp._map(cell, x_.a), rnp.dtype("?"))
+            return cell(x_)
+
+        class _NP(object):
+            isfinite = staticmethod(_nondet)
+            isnan = staticmethod(lambda x_, out=None: ~_nondet(x_) if isinstance(x_, symnp.SArr) else (not _nondet(x_)))
+
+            def __getattr__(self, name):
+                return getattr(symnp, name)
+        if fn in ("wmom", "wmedian", "get_stats", "interplin"):
+            m.np = _NP()
         x, cxs = _arr(cx, "x", v, 2, 0, 3, kind=None if VARIANTS[v][0] != "i8" else "i8")
         if x.ndim == 0 and fn not in ("wmom", "get_stats", "interplin"):
             return _skip(cx)
@@ -550,7 +570,14 @@ def replay(cand):
         return no
     if fam == "stat":
         fn = cfg[1]
+        Vn = list(V)
         for nm, a in V:
+            if a.dtype.kind == "f" and a.ndim and a.size > 1:
+                b = a.copy()
+                b.flat[0] = np.nan
+                b.flat[-1] = np.inf
+                Vn.append((nm + " with NaN/inf", b))
+        for nm, a in Vn:
             w = (a.copy() if a.ndim else np.array(1.0)) * 0 + np.arange(1, a.size + 1).reshape(a.shape)
             w = w.astype(a.dtype)
             args = [("data", a), ("weights", w)]
